@@ -241,11 +241,16 @@ class Builder:
         if join:
             self.post(alias, "JOIN #c")
 
-    def final_gets(self, aliases, ms):
-        for a in aliases:
-            self.post(a, "PING :sentinel")
+    def final_gets(self, aliases, ms, bg=()):
+        """Ends the program: every live session posts a sentinel, then its whole stream is read
+        (sessions in `bg` have a background GET open since their creation)."""
+        self.sentinel = {}
+        for a in list(aliases) + list(bg):
+            self.sentinel[a] = self.post(a, "PING :sentinel")
         for a in aliases:
             self.streams[a] = self.add({"op": "get", "session": a, "lastseen": "0.0", "ms": ms})
+        for a in bg:
+            self.streams[a] = self.add({"op": "collect", "bg": "g-" + a, "ms": ms})
 
     def program(self):
         return {"name": self.name, "opts": self.opts, "steps": self.steps}
@@ -319,15 +324,12 @@ class Plan:
         self.records = []    # trace records in order (dicts with bookkeeping keys starting with "_")
         self.dying = []
         kind_setup(self.b, kind, self.subject_nick)
-        self.start = {"ev": "Start", "id": self.b.name, "_kind": kind, "_subject": "sub", "_nick": self.subject_nick if kind != "unreg" else ""}
+        self.start = {"ev": "Start", "id": self.b.name, "_kind": kind, "_subject": "sub", "_self": self.subject_nick,
+                      "_nick": self.subject_nick if kind != "unreg" else ""}
         self.records.append(self.start)
         for case in cases:
             self.case(case)
-        live = ["bob"] + (["sub"] if True else [])
-        self.b.final_gets(live + ([self.b.victim] if kind == "oper" else []), 4000 if ctx.quick else 8000)
-        if kind == "oper":
-            # the surviving victim's stream is its background GET
-            self.b.streams[self.b.victim] = self.b.add({"op": "collect", "bg": "g-" + self.b.victim, "ms": 3000})
+        self.b.final_gets(["bob", "sub"], 4000 if ctx.quick else 8000, bg=[self.b.victim] if kind == "oper" else [])
 
     def names(self):
         return {"CHAN": "#c", "BOB": "bob", "SELF": self.subject_nick, "VIC": getattr(self.b, "victim", "vic000"),
@@ -344,6 +346,7 @@ class Plan:
         if op == "vicjoin":
             # the killed victim's stream ended; collect it, then bring a new one
             old = b.victim
+            b.add({"op": "delete", "session": old, "quitmessage": "cleanup"})
             b.streams[old] = b.add({"op": "collect", "bg": "g-" + old, "ms": 3000})
             new_victim(b)
             self.records.append({"ev": "Step", "id": caseid, "op": "vicjoin", "data": [], "skip": [], "all": True, "_rig": None})
@@ -404,7 +407,7 @@ class DyingPlan:
             b.session(alias, alias)
             nick = alias
         b.add({"op": "get", "session": alias, "lastseen": "0.0", "bg": "g-" + alias})
-        self.records.append({"ev": "Start", "id": cid, "_kind": self.kind, "_subject": alias, "_nick": nick})
+        self.records.append({"ev": "Start", "id": cid, "_kind": self.kind, "_subject": alias, "_nick": nick, "_self": alias})
         conc = Conc(self.rnd, {"CHAN": "#c", "BOB": "bob", "SELF": alias, "VIC": "vic000", "NEWNICK": alias})
         text, flat = conc.text(list(frame["pre"]) + list(xs) + list(frame["post"]))
         rec = {"ev": "Step", "id": cid, "op": frame["op"], "data": rle(flat), "skip": [], "all": False, "_vic": None, "_text": text}
@@ -421,11 +424,9 @@ class DyingPlan:
         rec2 = {"ev": "Step", "id": cid + "+after", "op": "post", "data": rle(["PING"]), "skip": [], "all": False, "_vic": None, "_text": "PING"}
         rec2["_rig"] = b.add({"op": "post", "session": alias, "body": body_post("PING", 7002)})
         self.records.append(rec2)
-        b.streams[alias] = b.add({"op": "collect", "bg": "g-" + alias, "ms": 3000})
-        if frame["op"] == "post" and rec["op"] == "big" or self.kind == "unreg" and frame["op"] == "post" and False:
-            pass
-        # clean up sessions that survived (e.g. the QUIT word was not parsed as such)
+        # end sessions that survived (e.g. the QUIT word was not parsed as such): the stream ends with the session
         b.add({"op": "delete", "session": alias, "quitmessage": "cleanup"})
+        b.streams[alias] = b.add({"op": "collect", "bg": "g-" + alias, "ms": 3000})
 
 
 # ------------------------------------------------------------ read back
@@ -441,6 +442,17 @@ def by_raft_id(lines):
     for k in d:
         d[k].sort(key=lambda x: x["reply"])
     return d
+
+
+def check_sentinels(b, by_i, streams):
+    """Completeness: the stream of every session alive at the end must reach its sentinel request."""
+    for alias, i in getattr(b, "sentinel", {}).items():
+        r = by_i[i][-1]
+        if r.get("status") != 200 or r["delta"]["raft"] != 1:
+            raise vlib.Inconclusive("program %s: sentinel of %s was not accepted (status %s)" % (b.name, alias, r.get("status")))
+        rid = r["post"]["raftLast"]
+        if not any(ln["id"] == rid for ln in streams.get(alias, [])):
+            raise vlib.Inconclusive("program %s: stream of %s is incomplete (sentinel not reached within the deadline)" % (b.name, alias))
 
 
 def host_of(lines, nick):
@@ -486,12 +498,7 @@ def harvest(ctx, plan, recs, judge, srvname):
     for alias, idx in b.streams.items():
         lines = stream_lines(by_i, idx)
         streams[alias] = lines
-    # completeness: every live session's stream must contain its sentinel
-    for alias, idx in b.streams.items():
-        st = b.steps[idx]
-        if st["op"] == "get":
-            if not any(ln["data"].endswith("PONG sentinel") for ln in streams[alias]):
-                raise vlib.Inconclusive("program %s: stream of %s is incomplete (no sentinel within the deadline)" % (b.name, alias))
+    check_sentinels(b, by_i, streams)
     idx_lines = {a: by_raft_id(l) for a, l in streams.items()}
     hosts = {}
 
@@ -520,12 +527,10 @@ def harvest(ctx, plan, recs, judge, srvname):
             if bh is None or (nick and h is None):
                 raise vlib.Inconclusive("program %s: cannot find the JOIN line of a set-up session" % b.name)
             vic = getattr(b, "victim", None) or "vic000"
-            env = {"self": max(len(nick), 1) if nick else len(rec["_subject"]), "bob": 3, "vic": len(vic), "chan": 2, "srv": len(srvname),
+            env = {"self": len(rec["_self"]), "bob": 3, "vic": len(vic), "chan": 2, "srv": len(srvname),
                    "host": len(h) if h else len(bh), "bhost": len(bh), "vhost": len(bh),
                    "buser": [["o", 3]], "breal": [["o", 3]], "vuser": [["o", len(vic)]], "vreal": [["o", len(vic)]],
                    "bobop": True}
-            if not nick:
-                env["self"] = 0
             out.append({"ev": "Start", "id": rec["id"], "env": env, "st": st})
             continue
         o = {"ev": "Step", "id": rec["id"], "op": rec["op"], "data": rec["data"], "skip": rec["skip"], "all": rec["all"],
@@ -624,8 +629,6 @@ def fuzz_program(ctx, name, rnd, cmds, nsteps):
     b.post("bob", "MODE #c +o fuzzb")
     b.add({"op": "create_session", "as": "fc"})                 # unregistered
     b.session("fd", "fuzzd", join=False)
-    for a in subs:
-        b.add({"op": "get", "session": a, "lastseen": "0.0", "bg": "g-" + a})
     targets = [b"#c", b"bob", b"fuzza", b"fuzzb", b"#C", b"#new", b"nobody", b"$*", b""]
     origin = {}
     safe = [c for c in cmds if c not in ("QUIT", "KILL", "GLINE", "SERVER", "OPER")]
@@ -669,9 +672,7 @@ def fuzz_program(ctx, name, rnd, cmds, nsteps):
         origin[i] = s
         b.streams[alias] = b.add({"op": "collect", "bg": "g-" + alias, "ms": 3000})
         b.add({"op": "delete", "session": alias, "quitmessage": "cleanup"})
-    for a in subs:
-        b.streams[a] = b.add({"op": "collect", "bg": "g-" + a, "ms": 1500, "mode": "keep"})
-    b.final_gets(["bob"], 4000 if ctx.quick else 8000)
+    b.final_gets(["bob"] + subs, 4000 if ctx.quick else 8000)
     b.origin = origin
     return b
 
@@ -686,10 +687,9 @@ def judge_fuzz(ctx, b, recs, judge):
             sent[r["post"]["raftLast"]] = (data, b.steps[i]["method"])
     seen = set()
     n = 0
-    for alias, idx in b.streams.items():
-        lines = stream_lines(by_i, idx)
-        if b.steps[idx]["op"] == "get" and not any(ln["data"].endswith("PONG sentinel") for ln in lines):
-            raise vlib.Inconclusive("fuzz program %s: stream of %s incomplete" % (b.name, alias))
+    streams = {alias: stream_lines(by_i, idx) for alias, idx in b.streams.items()}
+    check_sentinels(b, by_i, streams)
+    for alias, lines in streams.items():
         for ln in lines:
             key = (alias, ln["id"], ln["reply"])
             if key in seen:
